@@ -105,6 +105,7 @@ def dump() -> dict:
                      "segment_timeline": bool(m.segment_timeline)})
     d = {"rows": rows, **filter_name_sets(),
          "max_time_span": int(RequestHandlerBase.MAX_TIME_SPAN),
+         "max_depth": int(RequestHandlerBase.MAX_TIME_SHIFT_BUFFER_DEPTH),
          "max_event_count": int(RequestHandlerBase.MAX_EVENT_COUNT),
          "event_types": list(EventFactory.EVENT_TYPES.keys())}
     return d
@@ -135,15 +136,17 @@ def render(d: dict) -> str:
     out.append(f"def liveOnly : List String := {lean_list(d['live_only'])}")
     out.append("/-- names `remove_unused_parameters` passes to `remove_field` in its DRM branches -/")
     out.append(f"def drmUnused : List String := {lean_list(d['drm_unused'])}")
-    out.append("/-- `RequestHandlerBase.MAX_TIME_SPAN`, `MAX_EVENT_COUNT`, `EventFactory.EVENT_TYPES` -/")
+    out.append("/-- `RequestHandlerBase.MAX_TIME_SPAN`, `MAX_TIME_SHIFT_BUFFER_DEPTH`, `MAX_EVENT_COUNT`, `EventFactory.EVENT_TYPES` -/")
     out.append(f"def maxTimeSpan : Nat := {d['max_time_span']}")
+    out.append(f"def maxDepth : Nat := {d['max_depth']}")
     out.append(f"def maxEventCount : Nat := {d['max_event_count']}")
     out.append(f"def eventTypes : List String := {lean_list(d['event_types'])}")
     out.append("")
     out.append("/-- the constants of the filters as one record -/")
     out.append("def filters : FilterConsts :=")
     out.append("  { featureControlled := featureControlled, liveOnly := liveOnly, drmUnused := drmUnused,")
-    out.append("    maxTimeSpan := maxTimeSpan, maxEventCount := maxEventCount, eventTypes := eventTypes }")
+    out.append("    maxTimeSpan := maxTimeSpan, maxDepth := maxDepth, maxEventCount := maxEventCount,")
+    out.append("    eventTypes := eventTypes }")
     out.append("")
     out.append("end DashLive.Gen.Manifests")
     return "\n".join(out) + "\n"
